@@ -12,8 +12,12 @@ pub fn run(ctx: &mut Ctx) {
     for k in 0..n {
         let idx = k * ctx.nshards + ctx.shard;
         if !ctx.begin_case(idx, "ledger-history") { continue; }
-        let cfg = HistCfg { close_tag_draws: false, faults_max: 0, restore: false, payments: if ctx.thorough() { ctx.prng.gen_range(3..=12) } else { ctx.prng.gen_range(3..=6) }, boundary_balances: ctx.prng.gen_range(0..3) != 0, valid_bias: k % 2 == 0 };
+        let cfg = HistCfg { ping_pong: false, close_tag_draws: false, faults_max: 0, restore: false, payments: if ctx.thorough() { ctx.prng.gen_range(3..=12) } else { ctx.prng.gen_range(3..=6) }, boundary_balances: ctx.prng.gen_range(0..3) != 0, valid_bias: k % 2 == 0 };
         // the two merchants take turns as the channel's merchant: one thread serves histories (and close checks) under both
+        // one history in five moves the whole capacity back and forth (customer -> merchant -> customer ...): gross flow far
+        // above 2^64 while every balance stays in range — anything that accumulates over the history must not refuse these
+        let cfg = if k % 5 == 4 { HistCfg { ping_pong: true, payments: if ctx.thorough() { 12 } else { 7 }, boundary_balances: false, valid_bias: false, ..cfg } } else { cfg };
+        if cfg.ping_pong { ctx.count("history:ping-pong-at-capacity"); }
         let ok = run_history(ctx, &worlds[k % 2], &worlds[1 - k % 2], &cfg);
         ctx.count(if ok { "history:complete" } else { "history:stopped-early" });
         ctx.traces += 1;
